@@ -25,14 +25,14 @@ build=ok; go build ./... >/tmp/seed-$id.build 2>&1 || build=FAIL
 tests=ok; go test -vet=off -count=1 ./... >/tmp/seed-$id.tests 2>&1 || tests=FAIL
 for f in $out/*_test.go; do [ -f "$f" ] && cp $f $wt/$demodir/; done
 demo_with=pass; timeout 600 go test -vet=off -count=1 "${demoargs[@]}" ./$demodir/ >/tmp/seed-$id.demo1 2>&1 || demo_with=fail
-git checkout -q -- . 
+git apply -R $out/patch.diff 2>/dev/null; git checkout -q -- .
 demo_without=pass; timeout 600 go test -vet=off -count=1 "${demoargs[@]}" ./$demodir/ >/tmp/seed-$id.demo0 2>&1 || demo_without=fail
 cd /verif
 echo "seed $id: build=$build existing_tests=$tests demo_with_patch=$demo_with demo_without_patch=$demo_without"
 git -C /repo apply $out/patch.diff || { echo "cannot apply to /repo"; exit 3; }
 t0=$(date +%s)
 /verif/check $prop quick > /tmp/seed-$id.check 2>&1; rc=$?
-git -C /repo checkout -- .
+git -C /repo apply -R $out/patch.diff 2>/dev/null; git -C /repo checkout -- .; git -C /repo clean -fdq
 t1=$(date +%s)
 grep -E "^violation:|^VIOLATION|^RESULT|TROUBLE|KNOWN" /tmp/seed-$id.check
 classes=$(grep -E "^violation:" /tmp/seed-$id.check | sed -E 's/violation: class=([^ ]+) key=(.*) runs=([0-9]+).*/\1{\2} x\3/' | paste -sd';')
